@@ -15,8 +15,11 @@ ElfEntryBytesA(es, i, rot, isStr, addr) ==
   LET b == [j \in 1..es |-> FillB(i * 64 + j)]
       withT == IF es >= 8 THEN Override(Override(b, 0, U32Bytes(NameIdx[(i % 4) + 1])), 4, RawTypes[((i + rot) % 10) + 1]) ELSE b IN
   IF ~isStr THEN withT
-  ELSE IF es = 40 THEN Override(withT, 12, SubSeq(addr, 1, 4))
-  ELSE IF es = 64 THEN Override(withT, 16, addr) ELSE withT
+  \* the string-table entry: its address, and (odd rotations) a section size of 2 - names are NUL-terminated strings at
+  \* the table's address; the table's own size field takes no part in resolving them
+  ELSE LET szd == IF rot % 2 = 1 THEN <<2, 0, 0, 0, 0, 0, 0, 0>> ELSE <<>> IN
+       IF es = 40 THEN Override(Override(withT, 12, SubSeq(addr, 1, 4)), 20, SubSeq(szd, 1, Min(4, Len(szd))))
+       ELSE IF es = 64 THEN Override(Override(withT, 16, addr), 32, szd) ELSE withT
 ElfEntryBytes(es, i, rot, isStr) == ElfEntryBytesA(es, i, rot, isStr, ExtAddr)
 ElfParamsSet ==
   UNION { { [n |-> n, es |-> es, shndx |-> sh, slen |-> sl, rot |-> rot, atEnd |-> lst, strbad |-> FALSE]
